@@ -86,7 +86,7 @@ def utf8 (b : List Nat) : Str := decodeUtf8 (b.length + 1) b []
 
 def getConf (kv : KV) (k : String) : Except String (Option Conf) :=
   match kv.get k with
-  | none | some "nil" => .ok none
+  | none | some "nil" | some "empty" => .ok none
   | some v =>
     match v.splitOn ":" with
     | [on, vals] =>
@@ -179,6 +179,8 @@ def envOf (kv : KV) : Except String Env := do
     senderInAdmins := ← getBool kv "sadm" false
     confKey := ← getConf kv "ck"
     confWhite := ← getConf kv "cw"
+    confKeyEmpty := kv.get "ck" == some "empty"
+    confWhiteEmpty := kv.get "cw" == some "empty"
     ccPeerOk := ← getBool kv "ccp" false
     ccAddrOk := ← getBool kv "cca" false
     ccIdOk := ← getBool kv "cci" false
